@@ -354,7 +354,7 @@ theorem c17_event_times_inside_stream (cfg : ECfg) (k : Kind) (d : Nat) (w : ESt
 theorem c17_dropped_with_call (cfg : ECfg) (hp : PlainT cfg) (hfix : cfg.fixIdx = true) (k : Kind)
     (c : ECall) (s : ESt) (d : Nat) (hg : GoodT s d)
     (hm : d + c.height ≤ cfg.base.maxStack) (hd : d + c.height ≤ cfg.base.depthOpt)
-    (hs : c.short cfg.base.threshold) :
+    (hs : c.short cfg.base cfg.base.threshold) :
     (runECall cfg k s c).out = s.out ∧ (runECall cfg k s c).pend = s.pend ∧
     (runECall cfg k s c).frames = s.frames := by
   obtain ⟨h1, h2, h3, _⟩ := dropped_call cfg hp hfix k c s d hg hm hd hs
@@ -371,12 +371,12 @@ example : GoodT (ESt.init ({ base := { threshold := 50 }, watchCpu := true } : E
     rejects the call, and the call's EXIT record is written. -/
 theorem c17_dropped_async_flush (cfg : ECfg) (sB : ESt) (f f1 : EFrame) (rest : List EFrame) (tf : Nat)
     (retv : Bool) (o : Obs)
-    (hshort : ¬ (f.b.endT - f.b.start > tf)) (hw : f.b.written = false) (htr : f.b.trace = false)
+    (hshort : durOk cfg.base (f.b.endT - f.b.start) tf = false) (hw : f.b.written = false) (htr : f.b.trace = false)
     (hasync : hasAsync (watchStep cfg sB f1.b rest.length o).pend = true) (hend : f1.b.endT ≠ 0) :
     ∃ pre, (exitFinish cfg sB f f1 rest tf retv o).out =
       sB.out ++ pre ++ [.record (exitRec f1.b) (retPayload cfg retv f1)] := by
   have hs := (watchStep_spec cfg sB f1.b rest.length o).1
-  have hc : ((decide (f.b.endT - f.b.start > tf) && (!cfg.base.callerMode || f.b.caller)) || f.b.written || f.b.trace) = false := by
+  have hc : ((durOk cfg.base (f.b.endT - f.b.start) tf && (!cfg.base.callerMode || f.b.caller)) || f.b.written || f.b.trace) = false := by
     simp [hshort, hw, htr]
   have hne : (watchStep cfg sB f1.b rest.length o).pend.isEmpty = false := by
     cases hp : (watchStep cfg sB f1.b rest.length o).pend with
